@@ -26,3 +26,22 @@ Proof.
   intros k Hk. split; intro E; assert (raw_has_null refs raw = true) by (apply raw_has_null_iff; exists k; auto); congruence.
 Qed.
 Print Assumptions null_never_becomes_text.
+
+(* AT DOCUMENT LEVEL (plain triples maps): a statement is materialised iff it is the statement of some asserted rule for some
+   delivered row in which EVERY column the rule references holds a value that is neither NULL (None / NaN) nor a token of na_values;
+   a row with a NULL or such a token in a referenced column gives nothing through that rule -- through the end-to-end theorem of C01 *)
+From Morph Require Import Model.Mapping Model.Spec Model.Fragment Proofs.TermP Proofs.RowSpecP Proofs.DocSpecP Proofs.DocEngineP Proofs.DocNullP.
+Theorem statements_come_from_null_free_rows : forall cfg fe scfg raw d0 rules l,
+  cfg_agree cfg scfg -> c_nquads cfg = s_nquads scfg -> s_na scfg = c_na cfg ->
+  forallb plain_tm d0 = true -> normalise d0 = Ok rules -> (forall rl, In rl rules -> simple_rule rl) ->
+  (forall rl rw n, In rl rules -> In rw (raw (r_src rl)) -> In n (rule_names rl) -> assoc n rw <> None) ->
+  materialize_rules cfg fe rules (delivered cfg raw) = Ok l ->
+  forall x, In x l <->
+    exists rl rw, In rl rules /\ r_asserted rl = true /\ In rw (raw (r_src rl)) /\ doc_rule_line scfg rl (srow_of_raw rw) = Some x /\
+                  forall n, In n (rule_names rl) -> cell_present scfg rw n.
+Proof. exact engine_statements_come_from_null_free_rows. Qed.
+Print Assumptions statements_come_from_null_free_rows.
+Theorem null_in_a_referenced_column_gives_no_statement : forall scfg rl rw n, simple_rule rl -> In n (rule_names rl) -> ~ cell_present scfg rw n ->
+  doc_rule_line scfg rl (srow_of_raw rw) = None.
+Proof. exact null_in_a_referenced_column_suppresses. Qed.
+Print Assumptions null_in_a_referenced_column_gives_no_statement.
